@@ -712,6 +712,19 @@ async fn batch(zone: &Zone, c: &mut Content, h: &mut Hist, names: &[String], spe
                     drop(root);
                     w.commit(false).await.expect("commit");
                     h.commits += 1;
+                    // This writer goes on: whoever queued behind it is still
+                    // waiting after the commit in the middle.
+                    let got_in = QUEUED_WRITER.with(|q| match q.borrow_mut().as_mut() {
+                        Some(f) => {
+                            let mut cx = std::task::Context::from_waker(futures_util::task::noop_waker_ref());
+                            f.as_mut().poll(&mut cx).is_ready()
+                        }
+                        None => false,
+                    });
+                    if got_in {
+                        sim::violation(P8, "write-interface", "two-writers-hold-the-zone".to_string(), "a writer queued behind a multi-part update was handed the zone at that update's first commit, while the first writer goes on with its next part".to_string());
+                        return;
+                    }
                     root = w.open(sim::chance("batch.diff", 1, 2)).await.expect("open");
                     cur.remove(&(APEX.to_string(), Rtype::SOA));
                     apply_add(&mut cur, soa);
